@@ -289,16 +289,23 @@ C01 = register(HistProp(
     "distinct = distinct case text"))
 
 C01.manifest = {
-    "text": "Unbounded theorems (all specs, all histories, all names/weights, generic name type) about the spec-level "
-            "mutation ladder: error => graph unchanged, only the three error kinds, self-loop / missing-node / duplicate "
-            "policies sentence by sentence, source-first creation, either orientation when undirected, re-add keeps "
-            "position and replaces attributes, batch add applies exactly the prefix before the first failing edge, "
-            "never panics. The spec and the faithful twelve-field model are tied to the code by a per-call "
-            "correspondence (outcome, node list, edge multiset, all private indexes via the hook).",
-    "note": "Trusted: Coq kernel + vm_compute; harness/printers/diff; the refinement twelve-field-model -> spec is "
-            "validated per generated history (flag kind 5), its unbounded proof is in progress (DESIGN.md 6/C01). "
-            "Axioms: none (Closed under the global context).",
-    "technique": "Coq proof (induction over op lists) + differential correspondence vs vm_compute model",
+    "text": "Unbounded theorems (all 96 specs, all histories, all names/weights, generic name type). Spec level (a "
+            "fifteen-line policy ladder over node list + edge list): error => graph unchanged, only the three error kinds, "
+            "self-loop / missing-node / duplicate policies sentence by sentence, source-first creation, either orientation "
+            "when undirected, re-add keeps position and replaces attributes, batch add applies exactly the prefix before "
+            "the first failing edge, never panics. Model level (faithful transcription of all twelve fields of Graph): the "
+            "coherence invariant WF holds in every reachable state (C01_model_reachable_WF); one add_edge / add_node call "
+            "refines the spec call: same outcome, same node list, same edge multiset, all twelve fields untouched on an error "
+            "(C01_model_add_edge_refines, C01_model_add_node_refines); WHOLE HISTORIES run in lockstep with the spec: for "
+            "every sequence of add_node / add_nodes / add_edge / add_edges calls the outcomes agree call by call and the "
+            "final states are related (C01_history_refines), and from new(specs) no call ever panics and the graph held "
+            "afterwards has exactly the spec's node list and edge multiset (C01_history_from_new); new_from_nodes_and_edges "
+            "is such a history (C01_model_new_from_is_history). The model is tied to the code by a per-call correspondence "
+            "(outcome, node list, edge multiset, all private indexes via the hook).",
+    "note": "Trusted: Coq kernel + vm_compute; harness/printers/diff. The per-case refinement flag (kind 5) is kept as a "
+            "tie between model and code although it is now a theorem. add_edge_tuple(s) are modelled as add_edge(s) of the "
+            "constructed edges. Axioms: none (Closed under the global context).",
+    "technique": "Coq proof (WF invariant, step refinement, simulation over op lists) + differential correspondence vs vm_compute model",
 }
 
 # property modules tools/p_*.py register themselves on import
